@@ -72,6 +72,9 @@ func runC20(c *Ctx) {
 	checkPublish(c, func(n string) string { return "C20-" + n })
 	checkErrorTablesAgree(c, "C20-R3")
 	checkBackendErrorIsTheHaystack(c, "C20-R3")
+	checkMatcherIsSubstringTest(c, "C20-R3")
+	// the re-offer is triggered by the rescan-finished announcement: nothing but its own rescan switches it off
+	checkNeutrinoProducerDiscipline(c, "C20-R5", "d")
 	checkOldBtcdTableBehindVersionGate(c, "C20-R3")
 	checkSortInputKeyedByTxid(c, "C20-R4")
 	runC20Rest(c)
@@ -749,4 +752,46 @@ func checkSortInputKeyedByTxid(c *Ctx, rule string) {
 		}
 	}
 	c.Floor(rule, "insertions into the dependency sort's input set", n, 1)
+}
+
+// checkMatcherIsSubstringTest: the backends wrap the reject reason in codes and details ("-26: txn-already-in-mempool",
+// "... already have transaction in mempool <txid>"), so every error mapping asks whether the answer CONTAINS a known
+// message. The one matcher all mappers go through answers true only through strings.Contains; an equality test (however
+// case-insensitive) matches no real answer, every class collapses into "undefined", and an "already in mempool" answer at
+// a re-broadcast removes a live payment.
+func checkMatcherIsSubstringTest(c *Ctx, rule string) {
+	p := c.P
+	m := p.Func("chain", "", "matchErrStr")
+	if m == nil {
+		c.Unresolved(rule, "chain.matchErrStr")
+		return
+	}
+	n := 0
+	for _, f := range p.regionOf(m) {
+		for _, b := range f.Blocks {
+			r, ok := b.Instrs[len(b.Instrs)-1].(*ssa.Return)
+			if !ok || len(r.Results) != 1 || f != m {
+				continue
+			}
+			if bv, isC := constBool(r.Results[0]); isC && !bv {
+				continue
+			}
+			n++
+			viaContains, other := false, ""
+			for _, o := range (&Slicer{P: p, ThroughBinOp: true, ThroughReturns: func(g *ssa.Function) bool { return p.inRegion(m, g) }}).Origins(r.Results[0]) {
+				if call, ok := o.(*ssa.Call); ok {
+					if g := call.Call.StaticCallee(); g != nil && g.Pkg != nil && g.Pkg.Pkg.Path() == "strings" {
+						if g.Name() == "Contains" {
+							viaContains = true
+						} else if g.Name() == "EqualFold" || g.Name() == "HasPrefix" || g.Name() == "HasSuffix" || g.Name() == "Compare" {
+							other = g.Name()
+						}
+					}
+				}
+			}
+			c.Check(rule, "matcher-is-substring-test", r.Pos(), viaContains && other == "",
+				"matchErrStr does not decide by strings.Contains (found "+other+"): backend answers carry a code or details around the known message and never equal it, so no answer is classified and an accepted or already-known transaction is handled as rejected")
+		}
+	}
+	c.Floor(rule, "answers of the error-message matcher", n, 1)
 }
